@@ -55,3 +55,7 @@ reg("C18", "exploration",
     "(a) Metamorphic: random 3-level directory layouts with URL-hostile file and directory names (blanks, & ; [ ] ~ + non-ASCII) holding a schema with an extends chain and <import src> across directories and a configuration with nested %include across directories; each is loaded by absolute path, relative path, file: URL and absolute-/relative-named file objects from four current directories (inside and outside the tree) and all results must be digest-equal, schema.url and error URLs must be file:///; fragment-carrying %include / extends / src / top URLs must be rejected. (b) Reference check of isPath, urlnormalize, urldefrag on every string of length <= 6/7 and of urljoin (5 bases) and normalizeURL on every string of length <= 5/6 over {a C : / \\ # . f i l e}.",
     "(a) no model; (b) trusted: the small reference functions in zcv/props/c18.py. 'file://x' (U13): only the 'file:///' prefix is asserted. Contents are \\n-only.",
     "exhaustive enumeration vs. reference functions + random directory layouts with a metamorphic relation across entry points")
+reg("C10", "exploration",
+    "Valid documents of the generated family (decorated with description/example/metadefault) must load; for each of ~70 edit kinds grouped under the rules R1..R14 of the statement one edit (quick: a random applicable position per kind; thorough: every position) and random pairs of edits are applied to the XML tree and the result must raise ZConfig.SchemaError at schema-load time.",
+    "Each edit encodes one rule as named in the statement. Zones U4/U6/U17 and unimportable dotted datatype names are not generated. Documents stay well-formed XML.",
+    "random generation of valid schema documents + rule-violating edits at every applicable position (negative oracle: SchemaError)")
